@@ -59,20 +59,33 @@ func confusables(s string) []string {
 	return out
 }
 
-func c11Strings(maxLen int) []string {
-	var out []string
-	var rec func(cur string, n int)
-	rec = func(cur string, n int) {
-		out = append(out, cur)
-		if n == maxLen {
-			return
-		}
-		for _, a := range c11Alphabet {
-			rec(cur+a, n+1)
-		}
+// c11Count is the number of strings of length <= maxLen; c11String(i) is the i-th in length-then-lexicographic order.
+func c11Count(maxLen int) int {
+	n, p := 1, 1
+	for l := 1; l <= maxLen; l++ {
+		p *= len(c11Alphabet)
+		n += p
 	}
-	rec("", 0)
-	return out
+	return n
+}
+
+func c11String(i int) string {
+	if i == 0 {
+		return ""
+	}
+	i--
+	l, p := 1, len(c11Alphabet)
+	for i >= p {
+		i -= p
+		p *= len(c11Alphabet)
+		l++
+	}
+	parts := make([]string, l)
+	for k := l - 1; k >= 0; k-- {
+		parts[k] = c11Alphabet[i%len(c11Alphabet)]
+		i /= len(c11Alphabet)
+	}
+	return strings.Join(parts, "")
 }
 
 const c11Chunk = 400
@@ -81,15 +94,15 @@ func init() {
 	core.Register(&core.Property{
 		ID:    "C11",
 		Level: "exploration",
-		Rule: "every string over {a, n, t, \", \\, space, é, LF, TAB, CR, FF} up to length 4 (quick) / 5 (thorough, 177156 strings; exhaustive) plus random strings to length 12: lit(s) escapes backslash and double quote and writes the four control characters as \\n \\t \\r \\f. " +
+		Rule: "every string over {a, n, t, \", \\, space, é, LF, TAB, CR, FF} up to length 4 (quick) / 6 (thorough, 1948717 strings; exhaustive) plus random strings to length 12: lit(s) escapes backslash and double quote and writes the four control characters as \\n \\t \\r \\f. " +
 			"Oracles: ParseZqlString(lit(s)) == s; over rows holding s and its confusables (escape sequences decoded / not decoded / doubled, quotes trimmed, ...) the filters f = lit, f != lit, f in [lit], f contains lit, anyOf(tags) = lit (seek path) and anyOf(tags) != lit " +
 			"must select exactly the rows the string semantics selects, evaluated through package ast over an in-memory symbol table and (sampled) through a bolt store. non-trivial = distinct strings that contain at least one of backslash, quote or a control character",
 		Assumptions: []string{"the literal spelling is the one the statement describes; other spellings (raw control characters) are not sentences"},
 		Exhaustive:  func(t core.Tier) bool { return true },
 		Plan: func(tier core.Tier, seed int64) int {
-			n := len(c11Strings(4))
+			n := c11Count(4)
 			if tier == core.Thorough {
-				n = 177156 // (11^6-1)/10
+				n = c11Count(6) // 1948717 strings
 			}
 			return (n+c11Chunk-1)/c11Chunk + 16
 		},
@@ -101,17 +114,15 @@ func runC11(c *core.Ctx, idx int) {
 	r := c.Rand()
 	maxLen := 4
 	if c.Tier == core.Thorough {
-		maxLen = 5
+		maxLen = 6
 	}
-	all := c11StringsCached(maxLen)
-	nChunks := (len(all) + c11Chunk - 1) / c11Chunk
+	total := c11Count(maxLen)
+	nChunks := (total + c11Chunk - 1) / c11Chunk
 	var strs []string
 	if idx < nChunks {
-		end := (idx + 1) * c11Chunk
-		if end > len(all) {
-			end = len(all)
+		for i := idx * c11Chunk; i < (idx+1)*c11Chunk && i < total; i++ {
+			strs = append(strs, c11String(i))
 		}
-		strs = all[idx*c11Chunk : end]
 	} else {
 		for i := 0; i < 150; i++ {
 			n := 5 + r.Intn(8)
@@ -207,17 +218,6 @@ func runC11(c *core.Ctx, idx int) {
 			c.Sample(map[string]any{"s": s, "literal": lit, "confusable_rows": len(cands) - 1})
 		}
 	}
-}
-
-var c11Cache = map[int][]string{}
-
-func c11StringsCached(n int) []string {
-	if v, ok := c11Cache[n]; ok {
-		return v
-	}
-	v := c11Strings(n)
-	c11Cache[n] = v
-	return v
 }
 
 func classifyEsc(s, got string) string {
